@@ -557,4 +557,193 @@ theorem encodeVar_cmp (o : SortOptions) (a b : Option (List UInt8)) :
           · simpa [invIf, compareVal] using h2
           · simpa [invIf, compareVal] using cmpStrict_inv h2
 
+
+def compareNat (a b : Nat) : Ordering := if a < b then .lt else if b < a then .gt else .eq
+
+theorem beBytes_length (w n : Nat) : (beBytes w n).length = w := by
+  induction w generalizing n with
+  | zero => rfl
+  | succ w ih => simp [beBytes, ih]
+
+theorem u8_ofNat_lt_iff {a b : Nat} (ha : a < 256) (hb : b < 256) : UInt8.ofNat a < UInt8.ofNat b ↔ a < b := by
+  rw [UInt8.lt_iff_toNat_lt, UInt8.toNat_ofNat', UInt8.toNat_ofNat']; omega
+
+theorem pow256_succ (w : Nat) : 256 ^ (w + 1) = 256 * 256 ^ w := by rw [Nat.pow_succ]; omega
+
+theorem compare_beBytes (w : Nat) : ∀ (n m : Nat), n < 256 ^ w → m < 256 ^ w →
+    compareBytes (beBytes w n) (beBytes w m) = compareNat n m := by
+  induction w with
+  | zero => intro n m hn hm; simp at hn hm; subst hn; subst hm; rfl
+  | succ w ih =>
+    intro n m hn hm
+    have hB : 0 < 256 ^ w := Nat.pow_pos (by omega)
+    rw [pow256_succ] at hn hm
+    have hqn : n / 256 ^ w < 256 := Nat.div_lt_of_lt_mul (by rw [Nat.mul_comm]; exact hn)
+    have hqm : m / 256 ^ w < 256 := Nat.div_lt_of_lt_mul (by rw [Nat.mul_comm]; exact hm)
+    have hn' := Nat.div_add_mod n (256 ^ w)
+    have hm' := Nat.div_add_mod m (256 ^ w)
+    have hrn := Nat.mod_lt n hB
+    have hrm := Nat.mod_lt m hB
+    simp only [beBytes, compareBytes, u8_ofNat_lt_iff hqn hqm, u8_ofNat_lt_iff hqm hqn]
+    by_cases h1 : n / 256 ^ w < m / 256 ^ w
+    · have : n < m := Nat.lt_of_div_lt_div h1
+      simp [h1, compareNat, this]
+    · by_cases h2 : m / 256 ^ w < n / 256 ^ w
+      · have : m < n := Nat.lt_of_div_lt_div h2
+        have h3 : ¬ n < m := by omega
+        simp [h1, h2, compareNat, this, h3]
+      · have hq : n / 256 ^ w = m / 256 ^ w := by omega
+        simp only [h1, h2, if_false]
+        rw [ih _ _ hrn hrm]
+        rw [hq] at hn'
+        unfold compareNat
+        have e1 : (n % 256 ^ w < m % 256 ^ w) ↔ n < m := by omega
+        have e2 : (m % 256 ^ w < n % 256 ^ w) ↔ m < n := by omega
+        simp [e1, e2]
+
+theorem beNat_beBytes (w : Nat) : ∀ n, n < 256 ^ w → beNat (beBytes w n) = n := by
+  induction w with
+  | zero => intro n hn; simp at hn; subst hn; rfl
+  | succ w ih =>
+    intro n hn
+    have hB : 0 < 256 ^ w := Nat.pow_pos (by omega)
+    rw [pow256_succ] at hn
+    have hqn : n / 256 ^ w < 256 := Nat.div_lt_of_lt_mul (by rw [Nat.mul_comm]; exact hn)
+    simp only [beBytes, beNat, beBytes_length, ih _ (Nat.mod_lt n hB), UInt8.toNat_ofNat']
+    rw [Nat.mod_eq_of_lt (by omega)]
+    have := Nat.div_add_mod n (256 ^ w)
+    rw [Nat.mul_comm]; exact this
+
+
+set_option maxRecDepth 100000 in
+theorem xor128 : ∀ b, b < 256 → b ^^^ 128 = if b < 128 then b + 128 else b - 128 := by decide
+
+theorem signMask_eq : signMask = 128 := by decide
+
+theorem u8_flip (q : Nat) (hq : q < 256) :
+    UInt8.ofNat q ^^^ signMask = UInt8.ofNat (if q < 128 then q + 128 else q - 128) := by
+  apply UInt8.toNat_inj.mp
+  rw [signMask_eq, UInt8.toNat_xor, UInt8.toNat_ofNat', UInt8.toNat_ofNat']
+  have h1 : q % 2 ^ 8 = q := Nat.mod_eq_of_lt (by omega)
+  rw [h1, show (128 : UInt8).toNat = 128 from rfl, xor128 q hq]
+  split <;> omega
+
+theorem flipSign_beBytes (w T O : Nat) (hT : T < 256 * 256 ^ w)
+    (h : (T < 128 * 256 ^ w ∧ O = T + 128 * 256 ^ w) ∨ (128 * 256 ^ w ≤ T ∧ O + 128 * 256 ^ w = T)) :
+    flipSign (beBytes (w + 1) T) = beBytes (w + 1) O := by
+  have hB : 0 < 256 ^ w := Nat.pow_pos (by omega)
+  have hq : T / 256 ^ w < 256 := Nat.div_lt_of_lt_mul (by rw [Nat.mul_comm]; exact hT)
+  simp only [beBytes, flipSign]
+  rw [u8_flip _ hq]
+  rcases h with ⟨h1, h2⟩ | ⟨h1, h2⟩
+  · have hq' : T / 256 ^ w < 128 := Nat.div_lt_of_lt_mul (by rw [Nat.mul_comm]; exact h1)
+    subst h2
+    rw [if_pos hq', Nat.add_mul_div_right _ _ hB, Nat.add_mul_mod_self_right]
+  · have hq' : 128 ≤ T / 256 ^ w := (Nat.le_div_iff_mul_le hB).mpr h1
+    subst h2
+    have e1 : (O + 128 * 256 ^ w) / 256 ^ w = O / 256 ^ w + 128 := Nat.add_mul_div_right _ _ hB
+    have e2 : (O + 128 * 256 ^ w) % 256 ^ w = O % 256 ^ w := Nat.add_mul_mod_self_right _ _ _
+    rw [e1, e2, if_neg (by omega)]
+    rw [Nat.add_sub_cancel]
+
+
+theorem two_pow_8 (w : Nat) : 2 ^ (8 * w) = 256 ^ w := by rw [Nat.pow_mul]
+
+theorem two_pow_8_succ (w : Nat) : 2 ^ (8 * (w + 1)) = 256 * 256 ^ w := by
+  rw [two_pow_8, Nat.pow_succ]; omega
+
+theorem two_pow_8_pred (w : Nat) : 2 ^ (8 * (w + 1) - 1) = 128 * 256 ^ w := by
+  rw [show 8 * (w + 1) - 1 = 8 * w + 7 by omega, Nat.pow_add, two_pow_8]; omega
+
+theorem int_two_pow (k : Nat) : (2 : Int) ^ k = ((2 ^ k : Nat) : Int) := by
+  rw [Int.natCast_pow]; rfl
+
+/-- offset-binary image of a two's complement pattern (what the sign-bit flip produces) -/
+def offsetBin (w s : Nat) : Nat := if s < 2 ^ (8 * w - 1) then s + 2 ^ (8 * w - 1) else s - 2 ^ (8 * w - 1)
+
+theorem offsetBin_lt (w s : Nat) (hs : s < 2 ^ (8 * (w + 1))) : offsetBin (w + 1) s < 256 ^ (w + 1) := by
+  unfold offsetBin
+  rw [two_pow_8_succ] at hs
+  rw [two_pow_8_pred, Nat.pow_succ]
+  split <;> omega
+
+theorem offsetBin_untwos (w s : Nat) (hs : s < 2 ^ (8 * (w + 1))) :
+    (offsetBin (w + 1) s : Int) = untwos (w + 1) s + 2 ^ (8 * (w + 1) - 1) := by
+  unfold offsetBin untwos
+  rw [int_two_pow, int_two_pow]
+  rw [two_pow_8_succ] at hs ⊢
+  rw [two_pow_8_pred]
+  split <;> omega
+
+theorem twos_range (w : Nat) (i : Int) (h1 : -(2 ^ (8 * (w + 1) - 1) : Int) ≤ i) (h2 : i < 2 ^ (8 * (w + 1) - 1)) :
+    twos (w + 1) i < 2 ^ (8 * (w + 1)) ∧ untwos (w + 1) (twos (w + 1) i) = i := by
+  unfold untwos twos
+  simp only [int_two_pow] at h1 h2 ⊢
+  rw [two_pow_8_succ, two_pow_8_pred] at *
+  have hB : 0 < 256 ^ w := Nat.pow_pos (by omega)
+  generalize 256 ^ w = B at *
+  have hM : ((256 * B : Nat) : Int) ≠ 0 := by omega
+  have h3 := Int.emod_nonneg i hM
+  have h4 := Int.emod_lt_of_pos i (show (0 : Int) < ((256 * B : Nat) : Int) by omega)
+  have h5 := Int.toNat_of_nonneg h3
+  by_cases hi : 0 ≤ i
+  · have : i % ((256 * B : Nat) : Int) = i := Int.emod_eq_of_lt hi (by omega)
+    constructor
+    · omega
+    · split <;> omega
+  · have : i % ((256 * B : Nat) : Int) = i + ((256 * B : Nat) : Int) := by
+      rw [← Int.add_emod_right]
+      exact Int.emod_eq_of_lt (by omega) (by omega)
+    constructor
+    · omega
+    · split <;> omega
+
+
+/-- xor with an all-ones mask is subtraction from the mask -/
+theorem xor_mask (k x : Nat) (hx : x < 2 ^ k) : x ^^^ (2 ^ k - 1) = 2 ^ k - 1 - x := by
+  apply Nat.eq_of_testBit_eq
+  intro i
+  rw [Nat.testBit_xor, Nat.testBit_two_pow_sub_one]
+  have h : 2 ^ k - 1 - x = 2 ^ k - (x + 1) := by omega
+  rw [h, Nat.testBit_two_pow_sub_succ hx]
+  by_cases hi : i < k
+  · simp [hi]
+  · have : x.testBit i = false := Nat.testBit_lt_two_pow (Nat.lt_of_lt_of_le hx (Nat.pow_le_pow_right (by omega) (by omega)))
+    simp [hi, this]
+
+/-- the float transform on an `n`-bit pattern with the shifts `n-1` and `1` -/
+theorem floatXform_eq (n s : Nat) (hn : 0 < n) (hs : s < 2 ^ n) :
+    floatXform n (n - 1) 1 s = if s < 2 ^ (n - 1) then s else 2 ^ (n - 1) + (2 ^ n - 1 - s) := by
+  obtain ⟨k, rfl⟩ : ∃ k, n = k + 1 := ⟨n - 1, by omega⟩
+  simp only [Nat.add_sub_cancel]
+  unfold floatXform
+  have hp : 2 ^ (k + 1) = 2 * 2 ^ k := by rw [Nat.pow_succ]; omega
+  by_cases h : s < 2 ^ k
+  · rw [Nat.testBit_lt_two_pow h]; simp [h]
+  · obtain ⟨m, rfl⟩ : ∃ m, s = 2 ^ k + m := ⟨s - 2 ^ k, by omega⟩
+    have hm : m < 2 ^ k := by omega
+    have hb : (2 ^ k + m).testBit k = true := by
+      rw [Nat.testBit_two_pow_add_eq, Nat.testBit_lt_two_pow hm]; rfl
+    rw [hb, if_pos rfl, if_neg h]
+    have hsh : (2 ^ (k + 1) - 1) >>> 1 = 2 ^ k - 1 := by
+      rw [Nat.shiftRight_eq_div_pow]; omega
+    rw [hsh]
+    apply Nat.eq_of_testBit_eq
+    intro i
+    rw [Nat.testBit_xor, Nat.testBit_two_pow_sub_one]
+    have e : 2 ^ k + (2 ^ (k + 1) - 1 - (2 ^ k + m)) = 2 ^ k + (2 ^ k - (m + 1)) := by omega
+    rw [e]
+    by_cases hi : i < k
+    · rw [Nat.testBit_two_pow_add_gt hi, Nat.testBit_two_pow_add_gt hi, Nat.testBit_two_pow_sub_succ hm]
+      simp [hi]
+    · by_cases hik : i = k
+      · subst hik
+        rw [Nat.testBit_two_pow_add_eq, Nat.testBit_two_pow_add_eq, Nat.testBit_lt_two_pow hm,
+          Nat.testBit_lt_two_pow (show 2 ^ i - (m + 1) < 2 ^ i by omega)]
+        simp
+      · have hlt : 2 ^ (k + 1) ≤ 2 ^ i := Nat.pow_le_pow_right (by omega) (by omega)
+        rw [Nat.testBit_lt_two_pow (show 2 ^ k + m < 2 ^ i by omega),
+          Nat.testBit_lt_two_pow (show 2 ^ k + (2 ^ k - (m + 1)) < 2 ^ i by omega)]
+        simp [hi]
+
 end ArrowModel.C11
